@@ -83,7 +83,7 @@ pub fn gen_locale(rng: &mut Rng) -> String {
     }
     // one in six: names that merely begin like a configured table, empty elements
     if rng.chance(1, 5) {
-        return (*rng.pick(&["fil_PH", "dea_XX", "enx", "frr_FR", "ab_c", "_US", "_", "de_", "__", "a", "es_MX_", "日本_JP"])).to_string();
+        return (*rng.pick(&["fil_PH", "dea_XX", "enx", "frr_FR", "ab_c", "_US", "_", "de_", "__", "a", "es_MX_", "日本_JP", "abcdefghijklmno\u{e9}xyz", "日本語日本語日本"])).to_string();
     }
     (*rng.pick(&["de_DE", "de", "en_US", "en", "fr_FR", "fr", "xx_YY", "", "a_b_c", "es_MX", "de_AT", "EN_us", "de_DE_u_co_phonebk", "zh_Hant_TW", "de_DE_u_co"])).to_string()
 }
